@@ -267,7 +267,11 @@ fn drain<R: Read>(mut r: R) -> Result<usize, String> {
         match r.read(&mut buf) {
             Ok(0) => return Ok(n),
             Ok(k) => { n += k; if n > 1 << 28 { return Err("output beyond 256 MiB".into()); } }
-            Err(e) => return Err(e.to_string()),
+            Err(e) => {
+                // a caller may well call read again after an error: that must not panic either
+                for _ in 0..2 { let _ = r.read(&mut buf); }
+                return Err(e.to_string());
+            }
         }
     }
 }
@@ -276,7 +280,21 @@ fn process_message(ctx: &Ctx, bytes: &[u8], armored: bool) {
     // packet level: parse everything, write everything back
     if !armored {
         for p in PacketParser::new(bytes).take(100_000) {
-            if let Ok(p) = p { let _ = p.to_bytes(); let _ = p.write_len(); }
+            if let Ok(p) = p {
+                let _ = p.to_bytes();
+                let _ = p.write_len();
+                match &p {
+                    Packet::SymKeyEncryptedSessionKey(k) => {
+                        // as a caller would: a key of the size the packet's own cipher asks for
+                        let n = k.sym_algorithm().map(|a| a.key_size()).unwrap_or(16);
+                        let _ = k.decrypt(vec![0x5au8; n]);
+                        let _ = k.is_supported();
+                    }
+                    Packet::Signature(s) => { let spub = ctx.signer.to_public_key(); let _ = s.verify(&spub.primary_key, &b"signed data"[..]); let _ = s.verify_key(&spub.primary_key); let _ = s.embedded_signature(); let _ = s.key_flags(); }
+                    Packet::PublicKeyEncryptedSessionKey(k) => { let _ = k.values(); let _ = k.id(); let _ = k.fingerprint(); for c in ctx.certs.values() { for sk in &c.secret_subkeys { let _ = k.match_identity(&sk.key.public_key()); } } }
+                    _ => {}
+                }
+            }
         }
     } else {
         let mut d = pgp::armor::Dearmor::new(bytes);
@@ -512,6 +530,31 @@ fn inner_streams(ctx: &Ctx, field: &str, thorough: bool) -> Vec<Vec<u8>> {
         "name_length" => { for n in 0..=255u8 { let mut b = literal_body(b"", b"abc"); b[1] = n; v.push(pkt(11, &b)); } }
         "date" | "truncated_header" => { let b = literal_body(b"name", b"abc"); for p in prefixes(&b, true) { v.push(pkt(11, &p)); } }
         // signature layer inside a message
+        "embedded_nesting" => {
+            // a signature whose unhashed area is an embedded-signature subpacket holding a signature whose unhashed area is ... (v4: 2-octet area
+            // lengths bound the depth near 4000; v6: 4-octet lengths allow any depth)
+            let build = |v6: bool, depth: usize| -> Vec<u8> {
+                let mut cur: Vec<u8> = Vec::new(); // innermost unhashed area: empty
+                let mut body = Vec::new();
+                for _ in 0..=depth {
+                    body = if v6 { vec![6u8, 0x19, 27, 8, 0, 0, 0, 0] } else { vec![4u8, 0x19, 22, 8, 0, 0] };
+                    if v6 { body.extend((cur.len() as u32).to_be_bytes()); } else { if cur.len() > 65535 { break; } body.extend((cur.len() as u16).to_be_bytes()); }
+                    body.extend_from_slice(&cur);
+                    body.extend([0xAB, 0xCD]);
+                    if v6 { body.push(0); body.extend([0u8; 64]); } else { body.extend([0, 1, 1, 0, 1, 1]); }
+                    // wrap as embedded signature subpacket (type 32) for the next level
+                    let l = body.len() + 1;
+                    let mut sp = if l < 192 { vec![l as u8] } else if l < 16320 { vec![((l - 192) >> 8) as u8 + 192, ((l - 192) & 0xff) as u8] } else { let mut x = vec![255u8]; x.extend((l as u32).to_be_bytes()); x };
+                    sp.push(32);
+                    sp.extend_from_slice(&body);
+                    cur = sp;
+                }
+                pkt(2, &body)
+            };
+            for d in [1usize, 10, 100, 1000, 3000] { v.push(build(false, d)); }
+            for d in [1usize, 10, 100, 1000, 10_000, if thorough { 100_000 } else { 30_000 }] { v.push(build(true, d)); }
+            let _ = ctx;
+        }
         "version" | "type" | "pk_algorithm" | "hash" | "hashed_length" | "unhashed_length" | "salt_length" | "mpi_bits" | "subpacket_length_forms" => {
             let sm = signed_message(ctx, 7);
             if let Ok(ps) = dstream(&sm) {
@@ -708,7 +751,10 @@ fn variants_inner(ctx: &Ctx, fam: &Value, field: &str, kind: &str, target: &str,
                 // the same stream without any encryption, once
                 if carrier == "session_key_given" && cont == "seipd_v1" { out.push(Art::Message(inner)); }
             }
-            if target == "signature" && carrier == "session_key_given" && cont == "seipd_v1" {
+            if target == "signature" && carrier == "session_key_given" && cont == "seipd_v1" && field == "embedded_nesting" {
+                for s in inner_streams(ctx, field, th) { out.push(Art::Sig(s)); }
+            }
+            if target == "signature" && carrier == "session_key_given" && cont == "seipd_v1" && field != "embedded_nesting" {
                 let d = detached(ctx, 9);
                 let r = match field { "version" => 0..1, "type" => 1..2, "pk_algorithm" => 2..3, "hash" => 3..4, "hashed_length" => 4..6, "salt_length" => 0..2, "mpi_bits" => d.len().saturating_sub(70)..d.len().saturating_sub(60), _ => 6..48 };
                 out.extend(octet_sweep(&d, 0, r, th).into_iter().map(Art::Sig));
@@ -878,7 +924,9 @@ pub fn worker(cases_path: &str, out_path: &str, tier: &str, seed: u64, resume_pa
         }
         if only.is_none() { jl(format!("D {gi} {}", vs.len())); jl(format!("T {} {} {}", t_group.elapsed().as_millis(), vs.len(), label)); }
     };
-    if let Some((g, _)) = only { run_group(g); } else { (0..gs.len()).into_par_iter().for_each(run_group); }
+    // 8 MiB stacks, like a main thread
+    let pool = rayon::ThreadPoolBuilder::new().stack_size(8 << 20).build().expect("pool");
+    if let Some((g, _)) = only { pool.install(|| run_group(g)); } else { pool.install(|| (0..gs.len()).into_par_iter().for_each(run_group)); }
     jl(format!("N {}", n_eval.load(Ordering::Relaxed)));
     std::process::exit(0);
 }
